@@ -167,7 +167,7 @@ def replacesBuffer : Function → Bool
 def foldCmd : List Function → Terminal → Bool → Option (Terminal × Bool)
   | [], t, nt => some (t, nt)
   | f :: fs, t, nt =>
-    if coveredScroll f && TInv t then foldCmd fs (scrollCmdSpec t f) (nt || scrolls t f) else none
+    if coveredScroll f then foldCmd fs (scrollCmdSpec t f) (nt || scrolls t f) else none
 
 def checkStep (ev : StepEv) : List Verdict :=
   if ev.kind == .resize then [] else
@@ -179,7 +179,7 @@ def checkStep (ev : StepEv) : List Verdict :=
     | some (exp, nt) => [check "scroll-command-spec" nt (n == afterCall ev.kind exp)]
     | none => []
   let quiet : List Verdict :=
-    if !ev.funs.isEmpty && ev.funs.all (fun f => !mayChangeScrollback f) && TInv p then
+    if !ev.funs.isEmpty && ev.funs.all (fun f => !mayChangeScrollback f) then
       [check "no-other-function-feeds-scrollback" true
         (n.buffer.sb == (afterCall ev.kind p).buffer.sb && n.otherBuffer.sb == p.otherBuffer.sb)]
     else []
